@@ -118,16 +118,14 @@ class Asset(DictCBORSerializable):
         if not isinstance(other, Asset):
             return False
         else:
-            if len(self) != len(other):
-                return False
-            for n in self:
-                if n not in other or self[n] != other[n]:
+            for n in list(self) + list(other):
+                if self.get(n, 0) != other.get(n, 0):
                     return False
             return True
 
     def __le__(self, other: Asset) -> bool:
-        for n in self:
-            if n not in other or self[n] > other[n]:
+        for n in list(self) + list(other):
+            if self.get(n, 0) > other.get(n, 0):
                 return False
         return True
 
@@ -184,16 +182,14 @@ class MultiAsset(DictCBORSerializable):
         if not isinstance(other, MultiAsset):
             return False
         else:
-            if len(self) != len(other):
-                return False
-            for p in self:
-                if p not in other or self[p] != other[p]:
+            for p in list(self) + list(other):
+                if self.get(p, Asset()) != other.get(p, Asset()):
                     return False
             return True
 
     def __le__(self, other: MultiAsset):
-        for p in self:
-            if p not in other or not self[p] <= other[p]:
+        for p in list(self) + list(other):
+            if not self.get(p, Asset()) <= other.get(p, Asset()):
                 return False
         return True
 
